@@ -101,6 +101,25 @@ ReshSeq == <<U8, ArrayT(<<1>>, "u8"), ArrayT(<<6>>, "u8"), ArrayT(<<2, 3>>, "u8"
 
 IndexSTs == {"u8", "u16", "u32", "u64", "b", "i8", "u128", "i64"}
 
+\* Packing families: operations that assemble an array from pieces / cut it into pieces, with no broadcasting,
+\* over piece sizes and piece counts beyond Dims (1..9, 16 pieces of 1..16 cells).  For bits (8 cells per byte,
+\* every value padded to a whole byte) this covers every combination of "piece is / is not a whole number of
+\* bytes" with "result is / is not a whole number of bytes"; the bit cases are enumerated exhaustively, the
+\* other scalar types are sampled.
+PackOuter == {<<n>> : n \in 1..9} \cup {<<16>>, <<2, 2>>, <<2, 3>>, <<2, 4>>, <<4, 2>>, <<3, 3>>, <<4, 4>>, <<2, 2, 2>>,
+                                        <<2, 1, 2>>, <<1, 8>>, <<8, 1>>}
+PackInner == {<<>>} \cup {<<n>> : n \in {1, 2, 3, 4, 5, 7, 8, 9}}
+             \cup {<<2, 2>>, <<1, 3>>, <<3, 1>>, <<2, 3>>, <<2, 4>>, <<3, 3>>, <<4, 4>>, <<3, 5>>, <<2, 2, 2>>, <<1, 2, 2>>}
+PackLens == {1, 2, 3, 4, 5, 7, 8, 9}
+PackCnt == (1..9) \cup {16}
+BitST == STs \cap {"b"}
+\* all of the bit cases, a sample of kk of the others
+PackSel(U, kk) == {q \in U : q[1] = "b"} \cup Sample2({q \in U : q[1] # "b"}, kk)
+\* Concatenate of pieces of lengths ls along the first or the last axis, the other dimensions being o
+PackConcat(U) == {<<IF q[2] THEN 0 ELSE Len(q[4]), q[1],
+                    [i \in 1..Len(q[3]) |-> IF q[2] THEN <<q[3][i]>> \o q[4] ELSE q[4] \o <<q[3][i]>>]>> : q \in U}
+PackOther == {<<>>, <<2>>, <<3>>, <<4>>, <<8>>, <<2, 2>>}
+
 Gen(opn) ==
   CASE opn \in {"Input", "Zeros", "Ones", "Random"} ->
          {C([op |-> opn, t |-> tt], <<>>) : tt \in {AnySeq[i] : i \in AnyIx} \cup {BadSeq[i] : i \in 1..Len(BadSeq)}
@@ -140,12 +159,18 @@ Gen(opn) ==
     [] opn \in {"CuckooToPermutation", "A2B", "ArrayToVector", "NOP", "Print"} ->
          {C(R1(opn), <<MkNum(q[2], q[1])>>) : q \in Sample(AllST \X ShapeOrS)}
          \cup {C(R1(opn), <<OddSeq[i]>>) : i \in OddIx}
+         \cup (IF opn # "ArrayToVector" THEN {}
+               ELSE {C(R1(opn), <<ArrayT(<<q[2]>> \o q[3], q[1])>>) : q \in PackSel(STs \X PackCnt \X PackInner, K \div 4)})
     [] opn = "DecomposeSwitchingMap" ->
          {C([op |-> opn, n |-> q[1]], <<MkNum(q[3], q[2])>>) : q \in Sample({1, 2, 5} \X {"u64", "u8", "b"} \X ShapeOrS)}
     [] opn = "Get" ->
          {C([op |-> opn, index |-> q[1]], <<MkNum(q[3], q[2])>>) : q \in RandomSubset(K, Seqs(0..3, 0, 4) \X STs \X ShapeOrS)}
          \cup {C([op |-> opn, index |-> q[1]], <<MkNum(q[3], q[2])>>) : q \in RandomSubset(K, Seqs(0..1, 0, 3) \X STs \X SH)}
          \cup {C([op |-> opn, index |-> <<0>>], <<OddSeq[i]>>) : i \in OddIx}
+         \* one piece (the first, one in the middle, the last) of an array of PackCnt pieces
+         \cup UNION {{C([op |-> opn, index |-> <<ii>>], <<ArrayT(<<q[2]>> \o q[3], q[1])>>) : ii \in {0, q[2] \div 2, q[2] - 1}} :
+                       q \in Sample2(BitST \X PackCnt \X (PackInner \ {<<>>}), K \div 3)
+                             \cup Sample2((STs \ {"b"}) \X PackCnt \X (PackInner \ {<<>>}), K \div 8)}
     [] opn = "GetSlice" ->
          {C([op |-> opn, slice |-> q[1]], <<MkNum(q[3], q[2])>>) :
             q \in UNION {SlGen(K \div 8, WildEls, 10, n, ShapeOrS) : n \in 1..3}
@@ -174,13 +199,17 @@ Gen(opn) ==
                                   \X Seqs({SomeNum[i] : i \in {1, 3, 9}} \cup {ArrayT(<<1>>, "u8"), ArrayT(<<2, 1>>, "u8"), ArrayT(<<3>>, "u8"), TupA}, 0, 4))
                   \cup {<<sh, [i \in 1..Prod(sh) |-> MkNum(a[((i - 1) % 2) + 2], a[1])]>> :
                           sh \in {<<1>>, <<2>>, <<3>>, <<2, 2>>, <<1, 2>>, <<2, 1, 2>>},
-                          a \in RandomSubset(Max2(K \div 6, 4), STs \X ShapeOrS \X ShapeOrS)}}
+                          a \in RandomSubset(Max2(K \div 6, 4), STs \X ShapeOrS \X ShapeOrS)}
+                  \* no broadcasting: Prod(outer) pieces of the same type
+                  \cup {<<q[2], [i \in 1..Prod(q[2]) |-> MkNum(q[3], q[1])]>> : q \in PackSel(STs \X PackOuter \X PackInner, K \div 4)}}
     [] opn = "Concatenate" ->
          {C([op |-> opn, axis |-> q[1]], [i \in 1..Len(q[3]) |-> MkNum(q[3][i], q[2])]) :
             q \in UNION {LET W == RandomSubset(14, ShapeOrS) IN RandomSubset(K \div 3, (0..3) \X STs \X [1..n -> W]) : n \in 1..3}
                   \cup RandomSubset(K, (0..2) \X STs \X Seqs([1..2 -> {1, 2}], 2, 3))
                   \cup RandomSubset(K \div 2, (0..2) \X STs \X Seqs([1..3 -> {1, 2}], 2, 2))
-                  \cup RandomSubset(K \div 4, (0..1) \X STs \X Seqs([1..1 -> Dims], 2, 4))}
+                  \cup RandomSubset(K \div 4, (0..1) \X STs \X Seqs([1..1 -> Dims], 2, 4))
+                  \cup PackConcat(BitST \X BOOLEAN \X Seqs(PackLens, 2, 2) \X PackOther)
+                  \cup PackConcat(RandomSubset(K \div 4, STs \X BOOLEAN \X Seqs(PackLens, 2, 4) \X PackOther))}
          \cup {C([op |-> opn, axis |-> 0], <<ArrayT(<<2>>, "u8"), tt>>) : tt \in {ArrayT(<<2>>, "i8"), TupA, U8}}
     [] opn = "B2A" ->
          {C([op |-> opn, st |-> q[1]], <<MkNum(q[3], q[2])>>) :
@@ -205,7 +234,8 @@ Gen(opn) ==
     [] opn = "Repeat" -> {C([op |-> opn, n |-> q[1]], <<AnySeq[q[2]]>>) : q \in (0..3) \X AnyIx}
     [] opn = "VectorToArray" ->
          {C(R0(opn), <<tt>>) : tt \in {AnySeq[i] : i \in AnyIx}
-                                     \cup {VectorT(q[1], MkNum(q[3], q[2])) : q \in Sample2((0..3) \X STs \X ShapeOrS, K \div 2)}}
+                                     \cup {VectorT(q[1], MkNum(q[3], q[2])) : q \in Sample2((0..3) \X STs \X ShapeOrS, K \div 2)}
+                                     \cup {VectorT(q[2], MkNum(q[3], q[1])) : q \in PackSel(STs \X PackCnt \X PackInner, K \div 4)}}
     [] opn = "Gather" ->
          {C([op |-> opn, axis |-> q[1]], <<ArrayT(q[3], q[2]), MkNum(q[5], q[4])>>) :
             q \in RandomSubset(3 * K, (0..3) \X STs \X SH \X IndexSTs \X ({<<>>, <<1>>, <<2>>, <<3>>, <<1, 2>>, <<2, 1>>, <<1, 1>>, <<2, 2>>, <<1, 3>>}))}
